@@ -823,6 +823,7 @@ func (r *Raft) ReloadableConfig() ReloadableConfig {
 // servers to the cluster.
 func (r *Raft) BootstrapCluster(configuration Configuration) Future {
 	bootstrapReq := &bootstrapFuture{}
+	bootstrapReq.ShutdownCh = r.shutdownCh
 	bootstrapReq.init()
 	bootstrapReq.configuration = configuration
 	select {
@@ -894,6 +895,7 @@ func (r *Raft) ApplyLog(log Log, timeout time.Duration) ApplyFuture {
 			Extensions: log.Extensions,
 		},
 	}
+	logFuture.ShutdownCh = r.shutdownCh
 	logFuture.init()
 
 	select {
@@ -920,6 +922,7 @@ func (r *Raft) Barrier(timeout time.Duration) Future {
 
 	// Create a log future, no index or term yet
 	logFuture := &logFuture{log: Log{Type: LogBarrier}}
+	logFuture.ShutdownCh = r.shutdownCh
 	logFuture.init()
 
 	select {
@@ -938,6 +941,7 @@ func (r *Raft) Barrier(timeout time.Duration) Future {
 func (r *Raft) VerifyLeader() Future {
 	metrics.IncrCounter([]string{"raft", "verify_leader"}, 1)
 	verifyFuture := &verifyFuture{}
+	verifyFuture.ShutdownCh = r.shutdownCh
 	verifyFuture.init()
 	select {
 	case <-r.shutdownCh:
@@ -1084,6 +1088,7 @@ func (r *Raft) Shutdown() Future {
 // can be used to open the snapshot.
 func (r *Raft) Snapshot() SnapshotFuture {
 	future := &userSnapshotFuture{}
+	future.ShutdownCh = r.shutdownCh
 	future.init()
 	select {
 	case r.userSnapshotCh <- future:
@@ -1120,6 +1125,7 @@ func (r *Raft) Restore(meta *SnapshotMeta, reader io.Reader, timeout time.Durati
 		meta:   meta,
 		reader: reader,
 	}
+	restore.ShutdownCh = r.shutdownCh
 	restore.init()
 	select {
 	case <-timer:
@@ -1142,6 +1148,7 @@ func (r *Raft) Restore(meta *SnapshotMeta, reader io.Reader, timeout time.Durati
 			Type: LogNoop,
 		},
 	}
+	noop.ShutdownCh = r.shutdownCh
 	noop.init()
 	select {
 	case <-timer:
